@@ -260,7 +260,7 @@ impl Launcher {
             let text = std::fs::read_to_string(&strace_out).unwrap_or_default();
             let _ = std::fs::remove_file(&strace_out);
             if text.contains("(INJECTED)") {
-                events.push(Event::FaultFired { kind: "sys-error(cli)".into(), point: format!("{call}:{errno}"), k: *when });
+                events.push(Event::FaultFired { kind: if errno == "EINTR" { "sys-eintr(cli)".into() } else { "sys-error(cli)".into() }, point: format!("{call}:{errno}"), k: *when });
             }
         }
         ChildOut { exit, events, stdout, stderr }
